@@ -324,13 +324,97 @@ static void sweep(void)
 	snprintf(vh_note, sizeof(vh_note), "every placement of the line-completing console_putchar in a 3-pass window, 3 lines x 3 scheduler states");
 }
 
+/* a free-running input thread (as librfn/posix/console_posix.c has) against the main-context scheduler */
+static bool feeder_done;
+static vh_rng_t co_r;
+static void feeder_thread(void *a)
+{
+	(void)a;
+	int lines_fed = 0;
+	while (spos < slen && !failed) {
+		/* one line at a time: the previous line must have been dispatched before the next one starts, so
+		 * the 15-character ring can never overflow; within a line the console fibre runs concurrently */
+		if (ngot < lines_fed) {
+			shim_co_backoff();
+			continue;
+		}
+		burst_left = 1;
+		bool nl = stream[spos] == '\n';
+		isr(0, 0, NULL);
+		if (nl)
+			lines_fed++;
+		if (vh_below(&co_r, 3) == 0)
+			shim_co_backoff();
+	}
+	feeder_done = true;
+}
+static void sched_thread(void *a)
+{
+	(void)a;
+	int guard = 0;
+	while ((!feeder_done || ngot < nwant) && !failed && guard++ < 200000) {
+		if (!pass())
+			shim_co_backoff();
+		vt++;
+		if (feeder_done && guard > 100000)
+			break;
+	}
+}
+static void co_case(long long c)
+{
+	vh_rng_seed(&co_r, vh_opt.seed, 616, (uint64_t)c);
+	char key[64];
+	snprintf(key, sizeof(key), "co:case=%lld", c);
+	vh_case_key(key);
+	vh_case_replay("--extra co --only-case %lld", c);
+	shim_reset();
+	shim_enable(false);
+	new_console();
+	build_stream(&co_r, 1 + (int)vh_below(&co_r, 6));
+	spos = 0;
+	isr_in_pass = isr_total = 0;
+	vt = 100;
+	feeder_done = false;
+	int policy = vh_below(&co_r, 3) == 0 ? SHIM_POLICY_PCT : SHIM_POLICY_RANDOM;
+	static const uint32_t probs[] = { 1311, 6554, 32768 };
+	uint32_t param = policy == SHIM_POLICY_PCT ? 1 + vh_below(&co_r, 3) : probs[vh_below(&co_r, 3)];
+	snprintf(scen, sizeof(scen), "%d lines fed by a free-running input thread (at most two lines outstanding), %s(%u)", nwant,
+		 policy == SHIM_POLICY_PCT ? "PCT d=" : "random p/65536=", param);
+	vh_case_desc("%s", scen);
+	run_idle(50, "initial prompt");
+	shim_co_begin(policy, param, vh_next(&co_r));
+	shim_co_spawn(sched_thread, NULL);
+	shim_co_spawn(feeder_thread, NULL);
+	shim_enable(true);
+	bool fin = shim_co_run(6000000);
+	shim_enable(false);
+	if (!fin && !failed)
+		viol("line-never-dispatched", "schedule cut after 6000000 points: %d of %d lines dispatched, %d of %d characters fed", ngot, nwant, spos,
+		     slen);
+	run_idle(200, "final");
+	if (!failed && spos >= slen)
+		final_compare();
+	vh_evaluations++;
+	VH_COUNT("coroutine_schedules");
+	VH_COUNT_N("characters_fed_by_thread", isr_total);
+	vh_distinct(shim_co_schedule_hash());
+	VH_COUNT("runs_nontrivial");
+	if (vh_want_sample() && evlog.n < 300 && c % 7 == 1)
+		vh_sample("%s | %s", scen, evlog.b);
+}
+
 int main(int argc, char **argv)
 {
 	vh_init(argc, argv, "console_isr");
 	const char *mode = vh_opt.extra ? vh_opt.extra : "random";
 	if (!strcmp(mode, "sweep"))
 		sweep();
-	else {
+	else if (!strcmp(mode, "co")) {
+		long long n = vh_opt.cases ? vh_opt.cases : (vh_opt.thorough ? 200000 : 6000);
+		for (long long c = vh_opt.proc; c < n && vh_nviol < 8; c += vh_opt.nproc)
+			if (vh_opt.only_case < 0 || c == vh_opt.only_case)
+				co_case(c);
+	} else {
 		long long n = vh_opt.cases ? vh_opt.cases : (vh_opt.thorough ? 400000 : 8000);
 		for (long long c = vh_opt.proc; c < n && vh_nviol < 8; c += vh_opt.nproc)
 			if (vh_opt.only_case < 0 || c == vh_opt.only_case)
